@@ -1,15 +1,13 @@
-import Aiorpcx.C08.Live
-/-! Group 4: a connection is never left half closed.  While the asyncio transport is closing
-but `connection_lost` has not been delivered (a graceful close that does not complete), somebody
-is inside `close(force_after)` with the timer still armed - an application task or a handler -
-so the forced abort is on its way. -/
+import Aiorpcx.C08.Step
+/-! A connection is never left half closed.  While the asyncio transport is closing but
+`connection_lost` has not been delivered (a graceful close that does not complete), somebody is
+inside `close(force_after)` with the timer still armed - an application task or a handler - so
+the forced abort is on its way. -/
 namespace Aiorpcx.C08
-
-def Handler.inClose (h : Handler) : Prop := h.status = .run ∧ ∃ d, h.kind = .closer d
 
 def GInv (s : S) : Prop :=
   s.closing = true → s.lost = false →
-    (∃ c ∈ s.closers, c.st = .waiting) ∨ (∃ h ∈ s.handlers, h.inClose)
+    (∃ c ∈ s.closers, c.st = .waiting) ∨ (∃ h ∈ s.handlers, h.inClose = true)
 
 theorem GInv.of_lost {s : S} (hl : s.lost = true) : GInv s := by
   intro _ h; rw [hl] at h; cases h
@@ -17,89 +15,201 @@ theorem GInv.of_lost {s : S} (hl : s.lost = true) : GInv s := by
 theorem GInv.of_not_closing {s : S} (hc : s.closing = false) : GInv s := by
   intro h; rw [hc] at h; cases h
 
-theorem lose_ginv (s : S) : GInv s.lose := GInv.of_lost (lose_lost s)
+/-! ### what stays lost -/
 
-theorem doAbort_ginv (s : S) : GInv s.doAbort := by unfold S.doAbort; exact lose_ginv _
-
-theorem finishHandler_inClose (i : Nat) (h : Handler) (hc : h.inClose) : finishHandler i h = h := by
-  obtain ⟨_, d, hk⟩ := hc
-  unfold finishHandler
-  simp [hk, HKind.finishable]
-
-theorem finishReaction_of_run (n : Nat) (h : Handler) (hr : h.status = .run) :
-    finishReaction n h = h := by
-  unfold finishReaction; simp [hr]
-
-theorem abortCloser_of_not_due (n : Nat) (c : Closer) (h : closerDue n c = false) :
-    abortCloser n c = c := by
-  unfold abortCloser; simp [h]
-
-theorem fireClosers_not_lost {s : S} (hl : s.fireClosers.lost = false) :
-    s.dueCount = 0 ∧ s.fireClosers.handlers = s.handlers ∧
-    s.fireClosers.closers = s.closers.map (abortCloser s.now) ∧
-    s.fireClosers.closing = s.closing ∧ s.lost = false := by
-  unfold S.fireClosers at hl ⊢
-  simp only [] at hl ⊢
+theorem settle_lost {s : S} (hl : s.lost = true) : s.settle.lost = true := by
+  unfold S.settle
   split
-  · rename_i h0
-    simp only [h0, ↓reduceIte] at hl
-    exact ⟨by simpa using h0, rfl, rfl, rfl, hl⟩
-  · rename_i h0
-    simp only [h0, Bool.false_eq_true, ↓reduceIte] at hl
-    rw [lose_lost] at hl; cases hl
+  · split
+    · rfl
+    · exact hl
+  · exact hl
 
-theorem tick_not_lost {s : S} (hl : s.tick.lost = false) :
-    s.lost = false ∧ s.bump.expire.dueCount = 0 ∧
-    s.tick.handlers = s.handlers.map (finishReaction (s.now + 1)) ∧
-    s.tick.closers = s.closers.map (abortCloser (s.now + 1)) ∧ s.tick.closing = s.closing := by
-  unfold S.tick at hl ⊢
-  rw [settle_lost] at hl
-  have hl' : s.bump.expire.fireClosers.lost = false := hl
-  obtain ⟨h0, hh, hc, hcl, hl0⟩ := fireClosers_not_lost hl'
-  have hset : s.bump.expire.fireClosers.endReactions.settle = s.bump.expire.fireClosers.endReactions := by
-    unfold S.settle
-    have : s.bump.expire.fireClosers.endReactions.lost = false := hl'
-    simp [this]
-  rw [hset]
-  refine ⟨hl0, h0, ?_, hc, hcl⟩
-  show s.bump.expire.fireClosers.handlers.map (finishReaction s.bump.expire.fireClosers.now) = _
-  rw [hh, fireClosers_now]; rfl
-
-theorem tick_ginv {s : S} (g : GInv s) : GInv s.tick := by
-  intro hc hl
-  obtain ⟨hl0, h0, hh, hcl, hclo⟩ := tick_not_lost hl
-  rw [hclo] at hc
-  have hnow : s.bump.expire.now = s.now + 1 := rfl
-  unfold S.dueCount at h0
-  rcases g hc hl0 with ⟨c, hcm, hw⟩ | ⟨h, hhm, hin⟩
+theorem settle_lost_or {s : S} (hf : s.fixed = true) :
+    s.settle.lost = true ∨ s.settle = s := by
+  unfold S.settle
+  split
   · left
-    have hnd : closerDue (s.now + 1) c = false := by
-      cases hd : closerDue (s.now + 1) c with
-      | false => rfl
-      | true =>
-        have : c ∈ s.bump.expire.closers.filter (closerDue s.bump.expire.now) := by
-          rw [hnow]; exact List.mem_filter.mpr ⟨hcm, hd⟩
-        have := List.length_pos_of_mem this
-        omega
-    refine ⟨c, ?_, hw⟩
-    rw [hcl]
-    exact List.mem_map.mpr ⟨c, hcm, abortCloser_of_not_due _ _ hnd⟩
-  · right
-    refine ⟨h, ?_, hin⟩
-    rw [hh]
-    exact List.mem_map.mpr ⟨h, hhm, finishReaction_of_run _ _ hin.1⟩
+    split
+    · rfl
+    · rename_i h; simpa [hf] using h
+  · right; rfl
 
-theorem advance_ginv (n : Nat) : ∀ {s : S}, GInv s → GInv (s.advance n) := by
-  induction n with
-  | zero => intro s g; exact g
-  | succ n ih => intro s g; exact ih (tick_ginv g)
+theorem settle_now (s : S) : s.settle.now = s.now := by
+  unfold S.settle; split
+  · split <;> rfl
+  · rfl
 
-theorem transportClose_ginv {s : S} (hw : (∃ c ∈ s.closers, c.st = .waiting) ∨ (∃ h ∈ s.handlers, h.inClose)) :
+theorem settle_handlers (s : S) : s.settle.handlers = s.handlers := by
+  unfold S.settle; split
+  · split <;> rfl
+  · rfl
+
+theorem settle_down (s : S) : s.settle.down = s.down := by
+  unfold S.settle; split
+  · split <;> rfl
+  · rfl
+
+theorem settle_fixed (s : S) : s.settle.fixed = s.fixed := by
+  unfold S.settle; split
+  · split <;> rfl
+  · rfl
+
+theorem settle_tickets (s : S) : s.settle.tickets = s.tickets := by
+  unfold S.settle; split
+  · split <;> rfl
+  · rfl
+
+theorem lose_lost (s : S) (why : Cause) : (s.lose why).lost = true := by
+  unfold S.lose
+  split
+  · assumption
+  · apply settle_lost
+    split <;> rfl
+
+theorem doAbort_lost (s : S) : s.doAbort.lost = true := by
+  unfold S.doAbort
+  split
+  · assumption
+  · exact lose_lost _ _
+
+theorem settle_ginv {s : S} (hf : s.fixed = true) (g : GInv s) : GInv s.settle := by
+  rcases settle_lost_or hf with h | h
+  · exact GInv.of_lost h
+  · rw [h]; exact g
+
+theorem transportClose_ginv {s : S}
+    (hw : (∃ c ∈ s.closers, c.st = .waiting) ∨ (∃ h ∈ s.handlers, h.inClose = true)) :
     GInv s.transportClose := by
   rcases transportClose_cases s with ⟨_, e⟩ | ⟨_, _, e⟩ | ⟨_, _, e⟩ <;> rw [e]
   · exact fun _ _ => hw
   · exact fun _ _ => hw
-  · exact lose_ginv _
+  · exact GInv.of_lost (lose_lost _ _)
+
+/-! ### the clock tick -/
+
+theorem abortCloser_of_not_due {n : Nat} {c : Closer} (h : ¬ (c.st = .waiting ∧ c.deadline ≤ n)) :
+    abortCloser n c = c := by
+  unfold abortCloser closerDue
+  grind
+
+theorem fireHandler_inClose {n : Nat} {dn c : Bool} {h : Handler} (hk : HOk n dn c h)
+    (hin : h.inClose = true) (hnd : handlerDue (n + 1) h = false) : fireHandler (n + 1) h = h := by
+  unfold fireHandler handlerDue Handler.inClose HOk at *
+  grind
+
+theorem anyDue_false_handlers {s : S} (h : s.anyDue = false) :
+    ∀ x ∈ s.handlers, handlerDue s.now x = false := by
+  unfold S.anyDue at h
+  simp only [Bool.or_eq_false_iff, List.any_eq_false] at h
+  intro x hx
+  have := h.2 x hx
+  simpa using this
+
+theorem fired_closing (s : S) : s.fired.closing = s.closing := rfl
+theorem fired_fixed (s : S) : s.fired.fixed = s.fixed := rfl
+theorem fired_down (s : S) : s.fired.down = s.down := rfl
+
+/-- nobody's wait is cut short in this tick: whoever was inside `close()` still is -/
+theorem fired_witness {s : S} (i : Inv s) (hnd : ({ s with now := s.now + 1 } : S).anyDue = false)
+    (hw : (∃ c ∈ s.closers, c.st = .waiting) ∨ (∃ h ∈ s.handlers, h.inClose = true)) :
+    (∃ c ∈ s.fired.closers, c.st = .waiting) ∨ (∃ h ∈ s.fired.handlers, h.inClose = true) := by
+  rcases hw with ⟨c, hc, hw⟩ | ⟨h, hh, hin⟩
+  · left
+    refine ⟨c, ?_, hw⟩
+    rw [fired_closers]
+    exact List.mem_map.mpr ⟨c, hc, abortCloser_of_not_due (anyDue_false hnd c hc)⟩
+  · right
+    refine ⟨h, ?_, hin⟩
+    rw [fired_handlers]
+    exact List.mem_map.mpr ⟨h, hh, fireHandler_inClose (i.h.ok h hh) hin
+      (anyDue_false_handlers hnd h hh)⟩
+
+theorem tick_ginv {s : S} (i : Inv s) (g : GInv s) : GInv s.tick := by
+  rw [tick_eq]
+  split
+  · exact GInv.of_lost (settle_lost (doAbort_lost _))
+  · rename_i hnd
+    have hnd : ({ s with now := s.now + 1 } : S).anyDue = false := by simpa using hnd
+    apply settle_ginv (by rw [fired_fixed]; exact i.fixed)
+    intro hc hl
+    rw [fired_closing] at hc
+    rw [fired_lost] at hl
+    exact fired_witness i hnd (g hc hl)
+
+theorem advance_ginv (n : Nat) : ∀ {s : S}, Inv s → GInv s → GInv (s.advance n) := by
+  induction n with
+  | zero => intro s _ g; exact g
+  | succ n ih => intro s i g; exact ih (tick_inv i) (tick_ginv i g)
+
+/-! ### events -/
+
+theorem startCloser_ginv {s : S} (_hc : s.closing = false) (j d pdl : Nat) (im : Bool) :
+    GInv (s.startCloser j d pdl im) := by
+  unfold S.startCloser
+  cases im with
+  | true => exact GInv.of_lost (doAbort_lost _)
+  | false =>
+    simp only [Bool.false_eq_true, ↓reduceIte]
+    apply transportClose_ginv
+    right
+    exact ⟨⟨j, .closer d, .run, pdl⟩, by simp, by simp [Handler.inClose]⟩
+
+theorem finishHandler_inClose {i : Nat} {h : Handler} (hin : h.inClose = true) :
+    finishHandler i h = h := by
+  unfold finishHandler Handler.inClose HKind.finishable at *
+  grind
+
+theorem crashHandler_inClose_iff (i : Nat) (h : Handler) :
+    (crashHandler i h).inClose = h.inClose := by
+  unfold crashHandler Handler.inClose
+  split
+  · rename_i hc
+    simp only [Bool.and_eq_true, beq_iff_eq] at hc
+    simp [hc.1.2, hc.2]
+  · rfl
+
+theorem crash_ginv {s : S} (i : Inv s) (g : GInv s) (j : Nat) : GInv (s.crash j) := by
+  unfold S.crash
+  split
+  · exact g
+  · dsimp only
+    split
+    · exact GInv.of_lost (settle_lost (doAbort_lost _))
+    · rename_i hb
+      apply settle_ginv (by exact i.fixed)
+      intro hc hl
+      have hc : s.closing = true := hc
+      have hl : s.lost = false := hl
+      rcases g hc hl with hw | ⟨h, hh, hin⟩
+      · left; exact hw
+      · exfalso
+        apply hb
+        simp only [i.fixed, Bool.true_and, List.any_eq_true]
+        exact ⟨crashHandler j h, List.mem_map.mpr ⟨h, hh, rfl⟩, by rw [crashHandler_inClose_iff]; exact hin⟩
+
+theorem cancelCloser_other {n c : Nat} {x : Closer} (h : ¬ (x.id = c ∧ x.st = .waiting))
+    (hw : x.st = .waiting) : cancelCloser n c x = x := by
+  unfold cancelCloser
+  grind
+
+theorem cancelClose_ginv {s : S} (i : Inv s) (g : GInv s) (c : Nat) : GInv (s.cancelClose c) := by
+  unfold S.cancelClose
+  simp only []
+  split
+  · exact GInv.of_lost (doAbort_lost _)
+  · rename_i hb
+    simp only [i.fixed, Bool.true_and, List.any_eq_true, not_exists, not_and] at hb
+    intro hc hl
+    rcases g hc hl with ⟨x, hx, hw⟩ | hw
+    · left
+      refine ⟨x, ?_, hw⟩
+      have : cancelCloser s.now c x = x := by
+        apply cancelCloser_other _ hw
+        intro ⟨h1, h2⟩
+        exact hb x hx (by simp [h1, h2])
+      exact List.mem_map.mpr ⟨x, hx, this⟩
+    · right; exact hw
 
 theorem step_ginv {s : S} (i : Inv s) (g : GInv s) (e : Event) : GInv (step s e) := by
   cases e with
@@ -107,92 +217,80 @@ theorem step_ginv {s : S} (i : Inv s) (g : GInv s) (e : Event) : GInv (step s e)
     unfold step; simp only []
     split
     · exact g
-    · rename_i hc
-      simp only [Bool.or_eq_true, not_or, Bool.not_eq_true] at hc
+    · rename_i hg
+      simp only [Bool.or_eq_true, not_or, Bool.not_eq_true] at hg
       unfold S.startHandler
       cases k with
-      | quick => exact GInv.of_not_closing hc.1.1
-      | slow => exact GInv.of_not_closing hc.1.1
-      | stubborn r => exact GInv.of_not_closing hc.1.1
-      | aborter => exact doAbort_ginv _
-      | closer fa =>
-        simp only []
-        split
-        · exact doAbort_ginv _
-        · apply transportClose_ginv
-          right
-          exact ⟨⟨j, .closer (s.now + fa), .run⟩, by simp, rfl, _, rfl⟩
-  | handlerFinish j =>
+      | quick => exact GInv.of_not_closing hg.1.1
+      | slow => exact GInv.of_not_closing hg.1.1
+      | stubborn r => exact GInv.of_not_closing hg.1.1
+      | aborter => exact GInv.of_lost (doAbort_lost _)
+      | thenClose fa => exact GInv.of_not_closing hg.1.1
+      | closer fa => exact startCloser_ginv hg.1.1 _ _ _ _
+  | replyClose j fa =>
     unfold step; simp only []
     split
     · exact g
+    · rename_i hg
+      simp only [Bool.or_eq_true, not_or, Bool.not_eq_true] at hg
+      exact startCloser_ginv hg.1.1 _ _ _ _
+  | handlerFinish j =>
+    unfold step; simp only []
+    split
     · intro hc hl
-      rcases g hc hl with hw | ⟨h, hhm, hin⟩
+      rcases g hc hl with hw | ⟨h, hh, hin⟩
       · left; exact hw
       · right
-        exact ⟨h, List.mem_map.mpr ⟨h, hhm, finishHandler_inClose _ _ hin⟩, hin⟩
+        exact ⟨h, List.mem_map.mpr ⟨h, hh, finishHandler_inClose hin⟩, hin⟩
+    · rename_i fa hfs
+      obtain ⟨h0, hh0, hr0⟩ := List.exists_of_findSome?_eq_some hfs
+      split
+      · exact GInv.of_lost (doAbort_lost _)
+      · rename_i hfa
+        apply transportClose_ginv
+        right
+        exact ⟨toCloser s.fixed s.now j h0, List.mem_map.mpr ⟨h0, hh0, rfl⟩,
+               toCloser_resuming hr0 (by simpa using hfa)⟩
+  | handlerCancel j => exact crash_ginv i g j
   | outgoing k =>
     unfold step; simp only []
     split
     · exact g
-    · exact fun hc hl => g hc hl
+    · split <;> exact fun hc hl => g hc hl
   | answer k =>
     unfold step; simp only []
     split
     · exact g
     · exact fun hc hl => g hc hl
-  | drop => unfold step; exact lose_ginv _
+  | drop => exact GInv.of_lost (lose_lost _ _)
   | appClose c fa =>
     unfold step; simp only []
     split
     · exact g
     · split
       · rename_i hce
-        exact GInv.of_lost (i.h.closedThen hce).1
+        have hl := (i.h.closedThen hce).1
+        have hcl := i.h.lostClosing hl
+        rcases transportClose_cases
+            { s with closers := s.closers ++ [⟨c, s.now, s.now + fa, .returned s.now⟩] } with
+          ⟨_, e⟩ | ⟨h, _⟩ | ⟨h, _⟩
+        · rw [e]; exact GInv.of_lost hl
+        · rw [hcl] at h; cases h
+        · rw [hcl] at h; cases h
       · split
-        · exact doAbort_ginv _
+        · exact GInv.of_lost (doAbort_lost _)
         · apply transportClose_ginv
           left
           exact ⟨⟨c, s.now, s.now + fa, .waiting⟩, by simp, rfl⟩
-  | abort => exact doAbort_ginv s
-  | advance dt => exact advance_ginv dt g
+  | cancelClose c => exact cancelClose_ginv i g c
+  | abort => exact GInv.of_lost (doAbort_lost _)
+  | advance dt => exact advance_ginv dt i g
 
 theorem run_ginv (es : List Event) : ∀ {s : S}, Inv s → GInv s → GInv (run s es) := by
   induction es with
   | nil => intro s _ g; exact g
   | cons e es ih => intro s i g; exact ih (step_inv i e) (step_ginv i g e)
 
-theorem init_ginv (rt : Nat) (st : Bool) : GInv (init rt st) := GInv.of_not_closing rfl
-
-/-! ### a handler inside `close()` forces the loss by its deadline, like an application task -/
-
-theorem lost_by_handler_deadline (n : Nat) : ∀ {s : S}, Inv s →
-    (∃ h ∈ s.handlers, h.status = .run ∧ ∃ d, h.kind = .closer d ∧ d ≤ s.now + n) →
-    (s.advance n).lost = true := by
-  induction n with
-  | zero =>
-    intro s i ⟨h, hh, hr, d, hk, hd⟩
-    have := i.h.closerLt h hh d hk hr
-    omega
-  | succ n ih =>
-    intro s i ⟨h, hh, hr, d, hk, hd⟩
-    show (s.tick.advance n).lost = true
-    rcases Bool.eq_false_or_eq_true s.tick.lost with hl | hl
-    · exact advance_lost n hl
-    · apply ih (tick_inv i)
-      obtain ⟨_, _, hhs, _, _⟩ := tick_not_lost hl
-      refine ⟨h, ?_, hr, d, hk, by rw [tick_now]; omega⟩
-      rw [hhs]
-      exact List.mem_map.mpr ⟨h, hh, finishReaction_of_run _ _ hr⟩
-
-/-- once the connection is lost after `a` seconds, `_closed_event` is set after `a` + the
-longest reaction, and stays set -/
-theorem closed_after_lost_by {s : S} (i : Inv s) (a : Nat) (hl : (s.advance a).lost = true)
-    (m : Nat) (hm : a + reactBound s ≤ m) : (s.advance m).closedEvent = true := by
-  obtain ⟨k, rfl⟩ : ∃ k, m = a + k := ⟨m - a, by omega⟩
-  rw [advance_add]
-  have hrb : RB (s.advance a) k :=
-    advance_RB a (fun x hx => Nat.le_trans (RB_reactBound s x hx) (by omega))
-  exact closed_after k (advance_inv a i).h hl (RB_reacting hrb)
+theorem init_ginv (rt pt ol : Nat) (st : Bool) : GInv (init rt pt ol st) := GInv.of_not_closing rfl
 
 end Aiorpcx.C08
